@@ -17,9 +17,9 @@ CLAIMS = {
 
 CLAIMS.update({
     "C11": {
-        "text": "For the six TLV readers of der.py (found by role) and the two primitive readers: abstract interpretation on an arbitrary buffer shows that only UnexpectedDER escapes and that at every normal return the declared length lies within the buffer, the remainder is exactly buffer[1+llen+length:] and the value is built from exactly the declared body; the DER minimality rules (short/long length form, no leading zero length byte, long form only for >= 0x80, non-empty non-negative minimally-encoded INTEGER, BIT STRING unused bits 0..7 / expected value / all `unused` low bits of the last octet zero (exact mask 2**unused - 1) / non-empty when unused != 0, padded OID sub-identifier) are entailment queries on role-defined byte terms at the return states; writer and reader tag bytes are cross-checked; encoders have no normal return outside their domain. Decides 'accept only canonical, never beyond the buffer, exact remainder'; does not decide value round-trips (hex / base-128 arithmetic). A possibly non-zero unused-bits count must have been separated (unused >= 1) and its padding tested before remove_bitstring returns, for every form of expect_unused.",
+        "text": "For the six TLV readers of der.py (found by role) and the two primitive readers: abstract interpretation on an arbitrary buffer shows that only UnexpectedDER escapes and that at every normal return the declared length lies within the buffer, the remainder is exactly buffer[1+llen+length:] and the value is built from exactly the declared body; the DER minimality rules (short/long length form, no leading zero length byte, long form only for >= 0x80, non-empty non-negative minimally-encoded INTEGER, BIT STRING unused bits 0..7 / expected value / all `unused` low bits of the last octet zero (exact mask 2**unused - 1) / non-empty when unused != 0, padded OID sub-identifier) are entailment queries on role-defined byte terms at the return states; writer and reader tag bytes are cross-checked; encoders have no normal return outside their domain. Decides 'accept only canonical, never beyond the buffer, exact remainder'; does not decide value round-trips (hex / base-128 arithmetic). A possibly non-zero unused-bits count must have been separated (unused >= 1) and its padding tested before remove_bitstring returns, for every form of expect_unused. R11.5: DER writers never drop trailing octets of a big-endian number (no strip()/rstrip() on packed / hexlified number octets; the matcher is exercised on a built-in positive and negative example in every run).",
         "note": "A1-A7; the integer value of a byte string is an uninterpreted term int_of(hex(x)); remove_object's arc arithmetic and encode_number/read_number value agreement are not decided.",
-        "technique": "abstract interpretation with entailment queries at return states (decision facts on role-defined terms) + sibling tag table",
+        "technique": "abstract interpretation with entailment queries at return states (decision facts on role-defined terms) + sibling tag table; taint-style dataflow of number octets into strip()/rstrip() in the DER writers",
         "design": "DESIGN.md section 3 C11",
     },
     "C12": {
@@ -38,15 +38,15 @@ CLAIMS.update({
 
 CLAIMS.update({
     "C02": {
-        "text": "Guards and totality of verification: in Public_key.verifies every return other than the constant False is reached only with 1 <= r, s <= n-1 (interval entailment at the return states, n = generator.order()), no exception can escape verifies (a possibly-identity result is tested before its coordinate is taken), True is only the outcome of comparing r with x(<double-scalar result>) mod n; verify / verify_digest return only the constant True and let only BadSignatureError (BadDigestError with truncation off) escape for any signature bytes with each of the three library decoders (12 contexts); the three decoders themselves are strict (exact lengths / item sizes, no trailing bytes, r and s read from the right places - the decoder clause shared with C12). Decides the range/identity/error-mapping/never-a-false-value/strict-decoding clauses; does not decide that mul_add computes (e/s)G + (r/s)Q. Shared with C06 (R06.8): identity operands are recognised by the internal addition used by the double-scalar product.",
+        "text": "Guards and totality of verification: in Public_key.verifies every return other than the constant False is reached only with 1 <= r, s <= n-1 (interval entailment at the return states, n = generator.order()), no exception can escape verifies (a possibly-identity result is tested before its coordinate is taken), True is only the outcome of comparing r with x(<double-scalar result>) mod n; verify / verify_digest return only the constant True and let only BadSignatureError (BadDigestError with truncation off) escape for any signature bytes with each of the three library decoders (12 contexts); the three decoders themselves are strict (exact lengths / item sizes, no trailing bytes, r and s read from the right places - the decoder clause shared with C12). Decides the range/identity/error-mapping/never-a-false-value/strict-decoding clauses; Shared with C06 (R06.8): identity operands are recognised by the internal addition used by the double-scalar product. R02.7 (formula identity): the paths of Public_key.verifies that answer True are exactly those on which x((e/s)G + (r/s)Q) mod n == r was tested, the point being compared as a formal Q(e, r, s)-linear combination of G and Q (both the mul_add and the fallback branch), after the four range tests and the infinity test.",
         "note": "A1-A7; point arithmetic is summarised (its result may be the identity unless compared with INFINITY); hash functions are contract parameters; digests are assumed non-empty as the property states.",
-        "technique": "abstract interpretation: interval entailment at return states, identity/None typestate, exception-escape analysis",
+        "technique": "abstract interpretation: interval entailment at return states, identity/None typestate, exception-escape analysis; value numbering of formulas in a commutative-ring normal form (polynomials / rational functions over Z in the input names, `% p` a ring homomorphism; sa/poly.py, sa/formula.py), path by path, no solver, nothing executed over formal linear combinations of group elements",
         "design": "DESIGN.md section 3 C02",
     },
     "C03": {
-        "text": "Guard clauses and provenance of signing: for 1 <= k <= n-1 Private_key.sign lets only RSZeroError escape, every returned Signature has 1 <= r, s <= n-1 (both zero checks dominate the return), r has the shape x((k + c*n)*G) mod n (blinding by multiples of n only) and s is reduced mod n and built from k^-1 mod n, the hash, the secret multiplier and r; sign_number confines the nonce from either source to [1, order-1] before privkey.sign; the digest converter refuses an over-long digest with BadDigestError when truncation is off, is total when on, reads the integer from a prefix of the digest and shifts it by exactly max(0, 8*len(digest') - bit_length(order)) (shift derived from the byte length, not from the value); from_secret_exponent returns only for 1 <= secexp <= n-1, builds the key from generator * secexp and stores the same secexp. Does not decide the values of r, s, e (shift amount, modular algebra).",
+        "text": "Guard clauses and provenance of signing: for 1 <= k <= n-1 Private_key.sign lets only RSZeroError escape, every returned Signature has 1 <= r, s <= n-1 (both zero checks dominate the return), r has the shape x((k + c*n)*G) mod n (blinding by multiples of n only) and s is reduced mod n and built from k^-1 mod n, the hash, the secret multiplier and r; sign_number confines the nonce from either source to [1, order-1] before privkey.sign; the digest converter refuses an over-long digest with BadDigestError when truncation is off, is total when on, reads the integer from a prefix of the digest and shifts it by exactly max(0, 8*len(digest') - bit_length(order)) (shift derived from the byte length, not from the value); from_secret_exponent returns only for 1 <= secexp <= n-1, builds the key from generator * secexp and stores the same secexp. Does not decide the values of r, s, e (shift amount, modular algebra). R03.7 (formula identity): every returning path of Private_key.sign yields r = x(k*G) (the blinding multiples of n vanish) and s = (e + d*r)/k as rational functions, after r != 0 and s != 0; all other paths raise RSZeroError under a zero test of r or s.",
         "note": "A1-A7; A5 is used for 'a scalar strictly between two multiples of the declared order does not annihilate the point'; the nonce assert in sign_number is treated as a guard (A7).",
-        "technique": "abstract interpretation: interval entailment, term-shape (provenance) checks on symbolic values, must-pass-through guards",
+        "technique": "abstract interpretation: interval entailment, term-shape (provenance) checks on symbolic values, must-pass-through guards; value numbering of formulas in a commutative-ring normal form (polynomials / rational functions over Z in the input names, `% p` a ring homomorphism; sa/poly.py, sa/formula.py), path by path, no solver, nothing executed over formal linear combinations of group elements",
         "design": "DESIGN.md section 3 C03",
     },
     "C04": {
@@ -65,30 +65,30 @@ CLAIMS.update({
 
 CLAIMS.update({
     "C05": {
-        "text": "ECDH refusal and delegation structure: _get_shared_secret returns only with both keys present, the private key's curve, the agreed curve and the remote key's curve compared equal and the product compared with INFINITY, it lets only NoKeyError / InvalidCurveError / InvalidSharedSecretError escape and returns x(remote.pubkey.point * own secret multiplier); each of the six bytes/DER/PEM loaders obtains its key from SigningKey.from_* / VerifyingKey.from_* with validation never switched off and stores it through the object loader; the object loaders store a key only when its curve equals the agreed curve and adopt a curve only when unset; no AttributeError/TypeError from an unset curve or key can escape; the secret is padded with number_to_string(secret, field prime). Does not decide that both parties compute equal secrets (commutativity).",
+        "text": "ECDH refusal and delegation structure: _get_shared_secret returns only with both keys present, the private key's curve, the agreed curve and the remote key's curve compared equal and the product compared with INFINITY, it lets only NoKeyError / InvalidCurveError / InvalidSharedSecretError escape and returns x(remote.pubkey.point * own secret multiplier); each of the six bytes/DER/PEM loaders obtains its key from SigningKey.from_* / VerifyingKey.from_* with validation never switched off and stores it through the object loader; the object loaders store a key only when its curve equals the agreed curve and adopt a curve only when unset; no AttributeError/TypeError from an unset curve or key can escape; the secret is padded with number_to_string(secret, field prime). Does not decide that both parties compute equal secrets (commutativity). R05.7 (formula identity): _get_shared_secret returns x(d * Q_remote) for the local secret multiplier d, only after d * Q was tested against INFINITY.",
         "note": "A1-A7; ECDH's three configuration fields are modelled as possibly-None values; key validation itself is C08.",
-        "technique": "abstract interpretation: None/identity typestate, predicate facts at return states, call-argument provenance",
+        "technique": "abstract interpretation: None/identity typestate, predicate facts at return states, call-argument provenance; value numbering of formulas in a commutative-ring normal form (polynomials / rational functions over Z in the input names, `% p` a ring homomorphism; sa/poly.py, sa/formula.py), path by path, no solver, nothing executed over formal linear combinations of group elements",
         "design": "DESIGN.md section 3 C05",
     },
     "C08": {
-        "text": "Acceptance structure of public keys: the (length, prefix) dispatch table of from_string computed from the return states equals the specification table (raw: len = V; 04: len = V+1; 06/07: len = V+1; 02/03: len = V/2+1; V = 2*orderlen(p)) with each class reachable and everything else raising MalformedPointError; every returned key passed through from_public_point with the caller's validate_point, which builds Public_key(curve.generator, point, validate_point) and maps InvalidPointError; Public_key.__init__ confines x and y each to [0, p-1] unconditionally and, with verify, establishes the curve equation on (x, y) and cofactor == 1 or n*P == INFINITY (sibling point_is_valid cross-checked); PointJacobi.__mul__ reduces scalars only modulo c*order with c >= 2, so n*P is not trivially the identity for a decoded point declaring order n; decoded points are only read or forwarded before validation; the compressed and hybrid parity decision tables equal the specification tables and SquareRootError is mapped; the SPKI wrapper compares the algorithm OID, reads the BIT STRING with unused = 0, refuses a raw-length body, consumes or proves empty every DER remainder and leaves validation on; every registry curve declares a cofactor. Does not decide the curve-equation arithmetic, square roots, or that the identity test used by the subgroup check is exact (see C06 known finding).",
+        "text": "Acceptance structure of public keys: the (length, prefix) dispatch table of from_string computed from the return states equals the specification table (raw: len = V; 04: len = V+1; 06/07: len = V+1; 02/03: len = V/2+1; V = 2*orderlen(p)) with each class reachable and everything else raising MalformedPointError; every returned key passed through from_public_point with the caller's validate_point, which builds Public_key(curve.generator, point, validate_point) and maps InvalidPointError; Public_key.__init__ confines x and y each to [0, p-1] unconditionally and, with verify, establishes the curve equation on (x, y) and cofactor == 1 or n*P == INFINITY (sibling point_is_valid cross-checked); PointJacobi.__mul__ reduces scalars only modulo c*order with c >= 2, so n*P is not trivially the identity for a decoded point declaring order n; decoded points are only read or forwarded before validation; the compressed and hybrid parity decision tables equal the specification tables and SquareRootError is mapped; the SPKI wrapper compares the algorithm OID, reads the BIT STRING with unused = 0, refuses a raw-length body, consumes or proves empty every DER remainder and leaves validation on; every registry curve declares a cofactor. Does not decide the curve-equation arithmetic, square roots, or that the identity test used by the subgroup check is exact (see C06 known finding). R08.3 (semantic form): PointJacobi.__mul__ evaluated on the scalar n for a point declaring order n (value numbering on multiples of n): no path answers INFINITY from the scalar alone and the scalar handed to the loops is still n.",
         "note": "A1-A7; point arithmetic is summarised; the subgroup clause inherits C06's known finding (Y = 0 treated as the identity).",
-        "technique": "abstract interpretation: decision tables from return-state facts (length x prefix, parity), must-pass-through call provenance, rest-consumption rule",
+        "technique": "abstract interpretation: decision tables from return-state facts (length x prefix, parity), must-pass-through call provenance, rest-consumption rule; value numbering of __mul__'s prelude on multiples of the declared order",
         "design": "DESIGN.md section 3 C08",
     },
 })
 
 CLAIMS.update({
     "C06": {
-        "text": "Representation discipline of the group-law code, decided by an abstract interpretation that classifies every coordinate-valued expression of PointJacobi relative to p (reduced / signed difference / small multiple / wide) and by role (X, Y, Z, operand, sign): every zero / ==1 / == test on a coordinate value is exact modulo p; every point constructed or stored inside the class receives reduced components and formula results are tested for Z == 0 before construction (inductive representation invariant); x(), y(), to_affine() and the legacy Point arithmetic hand out canonical residues; a zero test of a Y-role value leads to an identity outcome only in the doubling functions (11 other sites are the recorded known finding F6); _add calls each formula helper only under the Z facts it assumes; inverse_mod is applied to the invariant-protected Z after the Z == 1 shortcut; __eq__/__ne__ pairing and NotImplemented for foreign types. Does not decide that the formulas compute chord-and-tangent sums. R06.8: the internal addition returns the other operand for an operand with Z == 0 and the internal doubling maps it to (0, 0, 1); R06.9: legacy Point.__add__ decides the equal-x case by (y1 + y2) % p == 0 (accepted pattern set).",
+        "text": "Representation discipline of the group-law code, decided by an abstract interpretation that classifies every coordinate-valued expression of PointJacobi relative to p (reduced / signed difference / small multiple / wide) and by role (X, Y, Z, operand, sign): every zero / ==1 / == test on a coordinate value is exact modulo p; every point constructed or stored inside the class receives reduced components and formula results are tested for Z == 0 before construction (inductive representation invariant); x(), y(), to_affine() and the legacy Point arithmetic hand out canonical residues; a zero test of a Y-role value leads to an identity outcome only in the doubling functions (11 other sites are the recorded known finding F6); _add calls each formula helper only under the Z facts it assumes; inverse_mod is applied to the invariant-protected Z after the Z == 1 shortcut; __eq__/__ne__ pairing and NotImplemented for foreign types. R06.8: the internal addition returns the other operand for an operand with Z == 0 and the internal doubling maps it to (0, 0, 1); R06.9: legacy Point.__add__ decides the equal-x case by (y1 + y2) % p == 0 (accepted pattern set). R06.10 (formula identity): on every path of PointJacobi._add and ._double, helpers analysed in place (38 paths), the returned (X3, Y3, Z3) as polynomials in the input coordinates equals the chord / tangent result in Jacobian form up to a unit scaling (+-2^k * Z-monomial), or the other operand / an identity encoding on the paths whose own tests say an operand is the identity, both operands are equal (-> tangent result) or opposite; a chord path must carry a test excluding equal operands. This decides the polynomial identities of the group-law formulas (all 193 non-equivalent constant/sign/operand mutants of the six formula helpers are rejected); it still does not decide run-time ranges or the exactness of the raw-integer tests, which stay with R06.1.",
         "note": "A1-A7; assume-guarantee on the invariant (stored coordinates are reduced): points built from external integers are the induction boundary (C08 typestate / user constructions); p - v for reduced v is classified reduced under the side condition v != 0.",
-        "technique": "abstract interpretation over a residue-class/role domain (syntax-directed, fixpoint over the class), guard-dominance and dispatch-fact checks",
+        "technique": "abstract interpretation over a residue-class/role domain (syntax-directed, fixpoint over the class), guard-dominance and dispatch-fact checks; value numbering of formulas in a commutative-ring normal form (polynomials / rational functions over Z in the input names, `% p` a ring homomorphism; sa/poly.py, sa/formula.py), path by path, no solver, nothing executed",
         "design": "DESIGN.md section 3 C06",
     },
     "C07": {
-        "text": "Sign and operand agreement of the multiplication loops: in mul_add the operand accumulated under each of the nine (sign A, sign B) digit cases is (sign A)P + (sign B)Q, the four combined points being classified from the signs of the Y arguments they were built with; __mul__ adds the negated base exactly on negative digits; _mul_precompute pairs k = 3 mod 4 with the negated table entry and (k+1)/2, k = 1 mod 4 with the entry and (k-1)/2; each digit starts with exactly one doubling and additions occur only in digit branches; accumulators start at the identity encoding (0, 0, 1) and every digit of the reversed NAF is consumed; NAF lists are padded to equal length; every table entry is the affine (x(), y()) of a point and is added with Z = 1; short-circuits pair each multiplier with its own point and the two fallbacks compute self*self_mul + other*other_mul; scalars are reduced only modulo a positive multiple of the declared order under `if self.__order`; C06's exactness/invariant rules hold inside the loops. The five Y == 0 sites in this code are the recorded known finding F6. Does not decide that NAF digits sum to k, table length, or result values. Identity typestate (R07.6): a result that may be the legacy identity object is the receiver only of operations class Point defines identity-safely (classified from the method bodies), unless guarded by == INFINITY. The digit dispatch of mul_add (9 digit pairs), __mul__ (3 digits), _mul_precompute (14 scalars) and the NAF padding (5 length pairs) are evaluated with a restricted evaluator to find the executed statements; the operand classification of the executed _add call is then compared with the digit signs.",
+        "text": "Sign and operand agreement of the multiplication loops: in mul_add the operand accumulated under each of the nine (sign A, sign B) digit cases is (sign A)P + (sign B)Q, the four combined points being classified from the signs of the Y arguments they were built with; __mul__ adds the negated base exactly on negative digits; _mul_precompute pairs k = 3 mod 4 with the negated table entry and (k+1)/2, k = 1 mod 4 with the entry and (k-1)/2; each digit starts with exactly one doubling and additions occur only in digit branches; accumulators start at the identity encoding (0, 0, 1) and every digit of the reversed NAF is consumed; NAF lists are padded to equal length; every table entry is the affine (x(), y()) of a point and is added with Z = 1; short-circuits pair each multiplier with its own point and the two fallbacks compute self*self_mul + other*other_mul; scalars are reduced only modulo a positive multiple of the declared order under `if self.__order`; C06's exactness/invariant rules hold inside the loops. The five Y == 0 sites in this code are the recorded known finding F6. Does not decide that NAF digits sum to k, table length, or result values. Identity typestate (R07.6): a result that may be the legacy identity object is the receiver only of operations class Point defines identity-safely (classified from the method bodies), unless guarded by == INFINITY. The digit dispatch of mul_add (9 digit pairs), __mul__ (3 digits), _mul_precompute (14 scalars) and the NAF padding (5 length pairs) are evaluated with a restricted evaluator to find the executed statements; the operand classification of the executed _add call is then compared with the digit signs. R07.7: every path through the body of the three multiplication loops leaves the accumulator unchanged or replaces it by the result of the verified _add / _double with the accumulator as first operand; a formula written out inside a loop must pass the same path-wise identity (including the equal-operand case) with the loop's table entry as second operand.",
         "note": "A1-A7; same residue/role analysis as C06; an unrecognised restructuring of the digit dispatch is ANALYSIS-ERROR, not a violation.",
-        "technique": "abstract interpretation over a sign/operand provenance domain; digit dispatch decided by evaluating the guards on the finite digit / residue domain; identity typestate",
+        "technique": "abstract interpretation over a sign/operand provenance domain; digit dispatch decided by evaluating the guards on the finite digit / residue domain; identity typestate; value numbering of formulas in a commutative-ring normal form (polynomials / rational functions over Z in the input names, `% p` a ring homomorphism; sa/poly.py, sa/formula.py), path by path, no solver, nothing executed",
         "design": "DESIGN.md section 3 C07",
     },
 })
@@ -128,9 +128,9 @@ CLAIMS.update({
         "design": "DESIGN.md section 3 C09",
     },
     "C14": {
-        "text": "Forwarding and validation structure of public-key recovery (thin): from_public_key_recovery hashes with the caller's hashfunc and forwards signature, curve, hashfunc, sigdecode, allow_truncate unchanged; the digest variant decodes with curve.generator.order(), converts the digest with the shared converter on (digest, curve, allow_truncate) and calls recover_public_keys(number, generator); recover_public_keys returns a list of exactly two Public_key(generator, Q) objects with validation on, both built on x = r with y a root of x^3 + ax + b mod p and -y mod p, both by the expression r^-1 (sR + (-e mod n)G); each is re-wrapped by from_public_point(pk.point, curve, hashfunc) with validation on. That the candidates contain the signer's key and verify the signature is algebra and is NOT decided.",
+        "text": "Forwarding and validation structure of public-key recovery (thin): from_public_key_recovery hashes with the caller's hashfunc and forwards signature, curve, hashfunc, sigdecode, allow_truncate unchanged; the digest variant decodes with curve.generator.order(), converts the digest with the shared converter on (digest, curve, allow_truncate) and calls recover_public_keys(number, generator); recover_public_keys returns a list of exactly two Public_key(generator, Q) objects with validation on, both built on x = r with y a root of x^3 + ax + b mod p and -y mod p, both by the expression r^-1 (sR + (-e mod n)G); each is re-wrapped by from_public_point(pk.point, curve, hashfunc) with validation on. That the candidates contain the signer's key and verify the signature is algebra and is NOT decided. R14.4 (formula identity): the root is taken of r^3 + a*r + b (polynomial comparison), the two curve points are (r, +-beta, 1), and each candidate (s/r)*R - (e/r)*G is returned, wrapped by Public_key(generator, Q), if and only if it was tested not to be the point at infinity (this rule found defect F8, repaired in /repo b38dce8); at most two keys are returned.",
         "note": "A1-A7; the substance of the property (recovery algebra) is outside static reach; this check pins the plumbing that the algebra assumes.",
-        "technique": "abstract interpretation: call-argument provenance, result-shape and term-structure checks",
+        "technique": "abstract interpretation: call-argument provenance, result-shape and term-structure checks; value numbering of formulas in a commutative-ring normal form (polynomials / rational functions over Z in the input names, `% p` a ring homomorphism; sa/poly.py, sa/formula.py), path by path, no solver, nothing executed over formal linear combinations of group elements",
         "design": "DESIGN.md section 3 C14",
     },
     "C15": {
